@@ -715,12 +715,16 @@ func (w *World) checkDefault(fm *FileModel, p *Prop, S *Struct, F *Field, path s
 			}
 			out = append(out, Issue{Rule: "A-DEF", Construct: "assigned literal is not this property's default", Msg: fmt.Sprintf("%s: the field is assigned %s (%s), not the default stated for this property", path, a.Expr, other)})
 		}
-		if ka := p.Spec.Atoms["default key"]; ka != nil && p.Spec.Default == "map" && fm.Structs[strings.TrimPrefix(F.Type, "*")] == nil && strings.Contains(a.Expr, ":") {
+		if ka := p.Spec.Atoms["default key"]; ka != nil && (p.Spec.Default == "map" || p.Spec.Default == "mapmap") && fm.Structs[strings.TrimPrefix(F.Type, "*")] == nil {
 			// the default of a MAP-typed field (a property-less object): its keys are data, they are the schema's keys verbatim — one
 			// whole quoted piece of the key's text each (a struct-typed default turns keys into field selectors instead; not this case)
 			want := "\"" + AtomText(ka) + "\""
 			if !strings.Contains(a.Expr, want+":") && !strings.Contains(a.Expr, want+" :") {
-				out = append(out, Issue{Rule: "A-DEF", Construct: "key of a map default is not the schema's key verbatim", Msg: fmt.Sprintf("%s: the map-typed field is assigned %s: its key is not the (quoted) default key as written in the schema — the decoded default has other keys than the schema's", path, normLine(a.Expr))})
+				construct := "key of a map default is not the schema's key verbatim"
+				if !strings.Contains(a.Expr, ":") {
+					construct = "non-empty map default replaced by an empty map (additionalProperties: " + p.Spec.AddProps + ")"
+				}
+				out = append(out, Issue{Rule: "A-DEF", Construct: construct, Msg: fmt.Sprintf("%s: the map-typed field is assigned %s: its key is not the (quoted) default key as written in the schema — the decoded default has other keys than the schema's", path, normLine(a.Expr))})
 			}
 		}
 		if p.Spec.Kind == "string" && p.Spec.Default == "scalar" && strings.Contains(strings.TrimLeft(a.Expr, "&("), "`") {
